@@ -709,6 +709,13 @@ package litefs
 //@   loop 1 modifies contents(ignoredBlocks)
 //@   loop 2 invariant len(ignoredBlocks) == int(blockN)
 //@   loop 2 modifies contents(ignoredBlocks)
+// Which blocks are summed page by page: EVERY block below blockN that holds a page of the WAL overlay (old or new) --
+// including the zero markers of truncated pages beyond pageN in the last block. Stated over the keys the two map ranges
+// have produced so far, and, once a range has ended, over all keys of that map.
+//@   loop 1 invariant forall p uint32 :: visited(1, p) && (p - 1) / 256 < blockN ==> ignoredBlocks[int((p - 1) / 256)]
+//@   loop 2 invariant forall p uint32 :: has(db.wal.chksums, p) && (p - 1) / 256 < blockN ==> ignoredBlocks[int((p - 1) / 256)]
+//@   loop 2 invariant forall p uint32 :: visited(2, p) && (p - 1) / 256 < blockN ==> ignoredBlocks[int((p - 1) / 256)]
+//@   loop 3 invariant forall p uint32 :: (has(db.wal.chksums, p) || has(newWALChecksums, p)) && (p - 1) / 256 < blockN ==> ignoredBlocks[int((p - 1) / 256)]
 //@   loop 3 invariant len(ignoredBlocks) == int(blockN) && dbWF(db) && db.pageSize != 0 && block <= blockN &&
 //@          ((block == 0 && chksum == 0) || chksum & ltx.ChecksumFlag != 0)
 //@   loop 3 modifies db.chksums.blocks, contents(db.chksums.blocks)
